@@ -155,10 +155,12 @@ func srvInHandler(a, b srvOp, bound int) *vx.Scenario {
 // ---------------------------------------------------------------- client alphabet (rig R3)
 
 type cliWorld struct {
-	srv  *sio.Server
-	mgr  *sio.Manager
-	sock sio.ClientSocket
-	v    vsched.Var
+	srv   *sio.Server
+	mgr   *sio.Manager
+	link  *vrig.Inproc
+	sock  sio.ClientSocket // "/", the first socket registered with the manager
+	sockB sio.ClientSocket // "/b", connected as well: the manager dispatches its events to several sockets
+	v     vsched.Var
 }
 
 type cliOp struct {
@@ -175,8 +177,11 @@ var cliOps = []cliOp{
 	{"OffEvent", func(w *cliWorld) { w.sock.OffEvent("n") }},
 	{"OnConnect", func(w *cliWorld) { w.sock.OnConnect(func() {}) }},
 	{"Connected", func(w *cliWorld) { w.sock.Connected(); w.sock.ID() }},
-	{"second-namespace-Connect", func(w *cliWorld) { w.mgr.Socket("/b", nil).Connect() }},
+	{"third-namespace-Connect", func(w *cliWorld) { w.mgr.Socket("/c", nil).Connect() }},
 	{"Disconnect", func(w *cliWorld) { w.sock.Disconnect() }},
+	{"other-socket-Disconnect", func(w *cliWorld) { w.sockB.Disconnect() }},
+	{"other-socket-Emit", func(w *cliWorld) { w.sockB.Emit("m", 2) }},
+	{"link-breaks", func(w *cliWorld) { w.link.V.Do(func() { w.link.Down = true }) }},
 	{"Connect-again", func(w *cliWorld) { w.sock.Connect() }},
 	{"Manager.Close", func(w *cliWorld) { w.mgr.Close() }},
 	{"server-emits", func(w *cliWorld) { w.srv.Emit("n", 1) }},
@@ -191,9 +196,9 @@ func cliPair(a, b cliOp, bound int) *vx.Scenario {
 		w := &cliWorld{}
 		var link *vrig.Inproc
 		w.srv, w.mgr, link = vrig.NewSioPair(nil, nil)
-		_ = link
-		ready := false
-		for _, ns := range []string{"/", "/b"} {
+		w.link = link
+		ready, readyB := false, false
+		for _, ns := range []string{"/", "/b", "/c"} {
 			w.srv.Of(ns).Use(func(s sio.ServerSocket, h *sio.Handshake) any {
 				s.OnEvent("m", func(int) {})
 				s.OnEvent("ma", func(n int, ack func(string)) { ack("ok") })
@@ -207,6 +212,11 @@ func cliPair(a, b cliOp, bound int) *vx.Scenario {
 		w.sock.OnConnect(func() { w.v.Do(func() { ready = true }) })
 		w.sock.Connect()
 		vsched.Await(func() bool { return ready })
+		w.sockB = w.mgr.Socket("/b", nil)
+		w.sockB.OnEvent("n", hEvent)
+		w.sockB.OnConnect(func() { w.v.Do(func() { readyB = true }) })
+		w.sockB.Connect()
+		vsched.Await(func() bool { return readyB })
 		vrig.Settle(time.Second)
 		vsched.SetExploring(true)
 		vsched.GoQuiet("A:"+a.name, func() { a.run(w) })
@@ -323,7 +333,7 @@ func main() {
 	vx.Main(vx.Config{
 		Property:  "C16",
 		Level:     "model_checking",
-		Rule:      "every unordered pair (incl. an operation with itself) of operations from a 26-operation server alphabet (API calls and incoming traffic) over harness-implemented Engine.IO sockets, a 15-operation Go-client alphabet over the in-process polling link and an 8-operation adapter alphabet (in-memory and session-aware) as a two-thread program, plus every server operation issued from inside an event handler, a disconnecting handler and an ack callback against two concurrent operations; all schedules to the deviation bound, each judged by the race detector (reports whose racing access lies in repository code), the deadlock detector and the held-mutex check. distinct_nontrivial = deviating schedules",
+		Rule:      "every unordered pair (incl. an operation with itself) of operations from a 26-operation server alphabet (API calls and incoming traffic) over harness-implemented Engine.IO sockets, an 18-operation Go-client alphabet (a manager with two connected sockets; incl. the link breaking, which starts the reconnection machinery) over the in-process polling link and an 8-operation adapter alphabet (in-memory and session-aware) as a two-thread program, plus every server operation issued from inside an event handler, a disconnecting handler and an ack callback against two concurrent operations; all schedules to the deviation bound, each judged by the race detector (reports whose racing access lies in repository code), the deadlock detector and the held-mutex check. distinct_nontrivial = deviating schedules",
 		Scenarios: scenarios,
 		Budget: func(tier string) time.Duration {
 			if tier == "thorough" {
